@@ -33,18 +33,19 @@ type KeyID string
 // SignJSON signs a JSON object returning a copy signed with the given key.
 // https://matrix.org/docs/spec/server_server/unstable.html#signing-json
 func SignJSON(signingName string, keyID KeyID, privateKey ed25519.PrivateKey, message []byte) (signed []byte, err error) {
+	// Existing signatures are carried over verbatim: they are not ours to decode.
 	preserve := struct {
-		Signatures map[string]map[KeyID]spec.Base64Bytes `json:"signatures"`
-		Unsigned   spec.RawJSON                          `json:"unsigned"`
+		Signatures map[string]map[KeyID]spec.RawJSON `json:"signatures"`
+		Unsigned   spec.RawJSON                      `json:"unsigned"`
 	}{
-		Signatures: map[string]map[KeyID]spec.Base64Bytes{},
+		Signatures: map[string]map[KeyID]spec.RawJSON{},
 	}
 	if err = json.Unmarshal(message, &preserve); err != nil {
 		return nil, err
 	}
 	if preserve.Signatures == nil {
 		// "signatures": null
-		preserve.Signatures = map[string]map[KeyID]spec.Base64Bytes{}
+		preserve.Signatures = map[string]map[KeyID]spec.RawJSON{}
 	}
 	if message, err = sjson.DeleteBytes(message, "signatures"); err != nil {
 		return nil, err
@@ -56,11 +57,14 @@ func SignJSON(signingName string, keyID KeyID, privateKey ed25519.PrivateKey, me
 	if err != nil {
 		return nil, err
 	}
-	signature := spec.Base64Bytes(ed25519.Sign(privateKey, canonical))
+	signature, err := json.Marshal(spec.Base64Bytes(ed25519.Sign(privateKey, canonical)))
+	if err != nil {
+		return nil, err
+	}
 	if existing, ok := preserve.Signatures[signingName]; ok && existing != nil {
 		preserve.Signatures[signingName][keyID] = signature
 	} else {
-		preserve.Signatures[signingName] = map[KeyID]spec.Base64Bytes{
+		preserve.Signatures[signingName] = map[KeyID]spec.RawJSON{
 			keyID: signature,
 		}
 	}
